@@ -40,7 +40,7 @@ def regenerate(extra_generators=()):
     ok = True
     for script in ("gen/gen_tables.py",) + tuple(extra_generators):
         r = subprocess.run([PY, os.path.join(ROOT, script)], capture_output=True, text=True,
-                           env=dict(os.environ, PYTHONPATH="/repo"), timeout=300)
+                           env=dict(os.environ, PYTHONPATH=os.environ.get("CURTSIES_REPO", "/repo")), timeout=300)
         out = (r.stdout + r.stderr).strip()
         if r.returncode != 0:
             ok = False
